@@ -205,7 +205,7 @@ def run(tier, v):
     cases = vlib.mbt_lines(g["out"])
     nbfs = len(cases)
     g2 = vlib.tlc("CodecGen", "CodecGen_sim.cfg", workers=1, timeout=900, heap="2g",
-                  simulate="num=%d" % (2500 if quick else 40000), depth=90, extra_args=["-seed", str(vlib.seed())])
+                  simulate="num=%d" % (2500 if quick else 30000), depth=90, extra_args=["-seed", str(vlib.seed())])
     cases += vlib.mbt_lines(g2["out"])
     if nbfs < 1000 or len(cases) - nbfs < 100:
         raise vlib.Infra("MBT export produced only %d + %d cases" % (nbfs, len(cases) - nbfs))
@@ -221,7 +221,7 @@ def run(tier, v):
     cov["samples"].append({"mbt_case": cases[nbfs + (len(cases) - nbfs) // 2]})
     # ---- 3. impl -> spec, call level
     out = os.path.join(vlib.scratch(), "c04tv")
-    s = vlib.run_driver(h, "c04_tv", out, {"shards": 16, "random": 1500 if quick else 40000})
+    s = vlib.run_driver(h, "c04_tv", out, {"shards": 16, "random": 1500 if quick else 20000})
     files = [os.path.join(out, "trace-%02d.ndjson" % i) for i in range(s["shards"])]
     files, res = _validate_all("CodecTrace", "CodecTrace.cfg", files, timeout=3000, heap="1g")
     _lap("call-level trace validation")
@@ -257,7 +257,7 @@ def run(tier, v):
     _lap("call-level self-tests")
     # ---- 4. impl -> spec, wire level
     wout = os.path.join(vlib.scratch(), "c04wire")
-    w = vlib.run_driver(h, "c04_wire", wout, {"shards": 16, "uploads": 72 if quick else 720}, timeout=1500)
+    w = vlib.run_driver(h, "c04_wire", wout, {"shards": 16, "uploads": 72 if quick else 480}, timeout=1500)
     wfiles = _nonempty([os.path.join(wout, "wire-%02d.ndjson" % i) for i in range(w["shards"])])
     wfiles0 = wfiles
     wfiles, wres = _validate_all("CodecObs", "CodecObs.cfg", wfiles, timeout=3000, heap="1500m")
